@@ -310,9 +310,13 @@ type vC11LabTransport struct {
 	at     time.Time
 }
 
-func (t *vC11LabTransport) LocalAddr() net.Addr  { return &net.UDPAddr{IP: net.IPv4(127, 0, 0, 1), Port: 53} }
-func (t *vC11LabTransport) RemoteAddr() net.Addr { return &net.UDPAddr{IP: net.IPv4(192, 0, 2, 77), Port: 40000} }
-func (t *vC11LabTransport) Close() error         { return nil }
+func (t *vC11LabTransport) LocalAddr() net.Addr {
+	return &net.UDPAddr{IP: net.IPv4(127, 0, 0, 1), Port: 53}
+}
+func (t *vC11LabTransport) RemoteAddr() net.Addr {
+	return &net.UDPAddr{IP: net.IPv4(192, 0, 2, 77), Port: 40000}
+}
+func (t *vC11LabTransport) Close() error { return nil }
 func (t *vC11LabTransport) rec(rcode int) {
 	t.mu.Lock()
 	t.writes++
@@ -340,7 +344,9 @@ type vC11BufWriter struct {
 	msg *dns.Msg
 }
 
-func (w *vC11BufWriter) RemoteAddr() net.Addr      { return &net.UDPAddr{IP: net.IPv4(127, 0, 0, 255), Port: 0} }
+func (w *vC11BufWriter) RemoteAddr() net.Addr {
+	return &net.UDPAddr{IP: net.IPv4(127, 0, 0, 255), Port: 0}
+}
 func (w *vC11BufWriter) WriteMsg(m *dns.Msg) error { w.msg = m; return nil }
 func (w *vC11BufWriter) Internal() bool            { return true }
 
@@ -356,6 +362,40 @@ func (q *vC11LabQueryer) Query(ctx context.Context, req *dns.Msg) (*dns.Msg, err
 }
 
 var vC11QuietOnce sync.Once
+
+// vC11Lag watches the machine, not the resolver: a goroutine that sleeps 10 ms at a time and
+// records by how much the scheduler overshoots. The lab runs on the wall clock; when the
+// scheduler stalled this goroutine for 100 ms or more during a scenario, every verdict of that
+// scenario that is derived from a duration (an answerable name failed inside its budget, slots
+// returned late) is an observation about the machine and the case is inconclusive. Verdicts
+// that are counts (two replies, no reply, slots or goroutines that never come back) stand.
+type vC11Lag struct {
+	max  atomic.Int64
+	stop chan struct{}
+	done chan struct{}
+}
+
+func vC11StartLag() *vC11Lag {
+	l := &vC11Lag{stop: make(chan struct{}), done: make(chan struct{})}
+	go func() {
+		defer close(l.done)
+		for {
+			t0 := time.Now()
+			select {
+			case <-l.stop:
+				return
+			case <-time.After(10 * time.Millisecond):
+			}
+			if over := int64(time.Since(t0) - 10*time.Millisecond); over > l.max.Load() {
+				l.max.Store(over)
+			}
+		}
+	}()
+	return l
+}
+
+func (l *vC11Lag) slow() bool { return time.Duration(l.max.Load()) >= 100*time.Millisecond }
+func (l *vC11Lag) end()       { close(l.stop); <-l.done }
 
 func TestVerifC11Lab(t *testing.T) {
 	out := os.Getenv("VERIF_OUT")
@@ -495,6 +535,7 @@ func TestVerifC11Lab(t *testing.T) {
 				wcancel()
 			}
 		}
+		lag := vC11StartLag()
 		time.Sleep(5 * time.Millisecond)
 		baseline := runtime.NumGoroutine()
 
@@ -775,13 +816,27 @@ func TestVerifC11Lab(t *testing.T) {
 		if slotsMs > int(vC11QT/time.Millisecond) && goFail == "" {
 			goFail = fmt.Sprintf("concurrency slots still held %d ms after the last client was answered", slotsMs)
 		}
+		lag.end()
+		if lag.slow() {
+			// duration-derived verdicts are about the machine when the scheduler stalled us
+			if slotsMs > int(vC11QT/time.Millisecond) && slotsMs < 6000 {
+				inconclusive = true
+			}
+			for _, q := range qs {
+				q.tr.mu.Lock()
+				if q.expect == 1 && !q.cancelled && q.tr.writes == 1 && q.tr.rcode == dns.RcodeServerFailure {
+					inconclusive = true
+				}
+				q.tr.mu.Unlock()
+			}
+		}
 		emit(map[string]any{
 			"k":            k,
 			"coq":          fmt.Sprintf("CaseLab %d [%s] %d %d", int(vC11QT/time.Millisecond), strings.Join(obs, "; "), left, slotsMs),
 			"nontrivial":   nontrivial,
 			"go_fail":      goFail,
 			"inconclusive": inconclusive,
-			"desc":         map[string]any{"query_timeout_ms": int(vC11QT / time.Millisecond), "exchange_timeout_ms": int(vC11NetTO / time.Millisecond), "max_concurrent": cfg.MaxConcurrentQueries, "queries": desc, "goroutines_left": left, "slots_held_ms_after_last_reply": slotsMs},
+			"desc":         map[string]any{"scheduler_lag_max_ms": int(time.Duration(lag.max.Load()) / time.Millisecond), "query_timeout_ms": int(vC11QT / time.Millisecond), "exchange_timeout_ms": int(vC11NetTO / time.Millisecond), "max_concurrent": cfg.MaxConcurrentQueries, "queries": desc, "goroutines_left": left, "slots_held_ms_after_last_reply": slotsMs},
 		})
 		cm.Stop()
 		h.Stop()
